@@ -15,8 +15,12 @@ EXTENDS Naturals, Sequences, FiniteSets, TLC, Json
 
 Runs == ndJsonDeserialize("traces.ndjson")
 
-VARIABLES t, l, val, pend
-vars == <<t, l, val, pend>>
+\* ex: the file is known to exist (it existed at the start, or a call that needs or makes it succeeded).  Nothing in
+\* the interface removes a file: once known to exist it must still be there at the end.  (An absent file may come
+\* into being by a call that then fails - Transform creates what it is about to read - so absence is not tracked
+\* the other way round.)
+VARIABLES t, l, val, pend, ex
+vars == <<t, l, val, pend, ex>>
 
 Apply(kind, tok, old) ==
   CASE kind = "append" -> Append(old, tok)
@@ -32,13 +36,13 @@ Evs == ApiEvents(Runs[t])
 ActorsOf(r) == {r.events[k].a : k \in 1..Len(r.events)}
 Idle == [st |-> "idle", op |-> "-", v |-> <<>>, kind |-> "-", tok |-> "-", res |-> <<>>]
 
-Init == /\ t \in 1..Len(Runs) /\ l = 1 /\ val = Runs[t].init
+Init == /\ t \in 1..Len(Runs) /\ l = 1 /\ val = Runs[t].init /\ ex = ~Runs[t].init_absent
         /\ pend = [a \in ActorsOf(Runs[t]) |-> Idle]
 
 Call == /\ l <= Len(Evs) /\ Evs[l].ev = "call" /\ pend[Evs[l].a].st = "idle"
         /\ pend' = [pend EXCEPT ![Evs[l].a] = [st |-> "called", op |-> Evs[l].op, v |-> Evs[l].v, kind |-> Evs[l].kind,
                                               tok |-> Evs[l].tok, res |-> <<>>]]
-        /\ l' = l + 1 /\ UNCHANGED <<t, val>>
+        /\ l' = l + 1 /\ UNCHANGED <<t, val, ex>>
 \* the return event that will close actor a's pending call (known from the recorded history: used to prune
 \* the search, not to decide it - a step that contradicts it could never be completed to an accepted run)
 NextRet(a) == LET js == {j \in l..Len(Evs) : Evs[j].ev = "ret" /\ Evs[j].a = a} IN
@@ -52,6 +56,7 @@ Lin(a) == /\ pend[a].st = "called"
           /\ CASE pend[a].op = "read"      -> val' = val /\ pend' = [pend EXCEPT ![a].st = "lin", ![a].res = val]
                [] pend[a].op = "write"     -> val' = pend[a].v /\ pend' = [pend EXCEPT ![a].st = "lin"]
                [] pend[a].op = "transform" -> val' = Apply(pend[a].kind, pend[a].tok, val) /\ pend' = [pend EXCEPT ![a].st = "lin"]
+          /\ ex' = TRUE
           /\ UNCHANGED <<t, l>>
 \* a call that reports an error took no effect (it may still have a linearization point: none needed)
 Ret == /\ l <= Len(Evs) /\ Evs[l].ev = "ret"
@@ -60,12 +65,13 @@ Ret == /\ l <= Len(Evs) /\ Evs[l].ev = "ret"
              \/ (Evs[l].res = "ok" /\ pend[a].st = "lin")
              \/ (Evs[l].res = "val" /\ pend[a].st = "lin" /\ pend[a].res = Evs[l].v)
           /\ pend' = [pend EXCEPT ![a] = Idle]
-       /\ l' = l + 1 /\ UNCHANGED <<t, val>>
+       /\ l' = l + 1 /\ UNCHANGED <<t, val, ex>>
 \* end of the history: the register must hold what the file finally held
 Accept == /\ l = Len(Evs) + 1 /\ \A a \in DOMAIN pend : pend[a].st = "idle"
           /\ val = Runs[t].final
+          /\ (Runs[t].final_absent => ~ex)
           /\ PrintT(<<"OK", t>>)
-          /\ l' = l + 1 /\ UNCHANGED <<t, val, pend>>
+          /\ l' = l + 1 /\ UNCHANGED <<t, val, pend, ex>>
 Next == Call \/ Ret \/ Accept \/ \E a \in DOMAIN pend : Lin(a)
 Spec == Init /\ [][Next]_vars
 =============================================================================
